@@ -11,6 +11,26 @@ from vectorizers.transformers import (InformationWeightTransformer, RowDenoising
                                       CountFeatureCompressionTransformer, SlidingWindowTransformer)
 
 
+import vectorizers.linear_optimal_transport as lot
+
+CALLS = []
+
+
+def _wrap(name, sizefn):
+    """record the number of rows handed to each call of a per-block / per-chunk kernel"""
+    orig = getattr(lot, name)
+
+    def w(*a, **k):
+        CALLS.append(int(sizefn(a)))
+        return orig(*a, **k)
+    setattr(lot, name, w)
+
+
+_wrap("lot_vectors_sparse_internal", lambda a: len(a[0]) - 1)
+_wrap("lot_vectors_dense_internal", lambda a: len(a[0]))
+_wrap("sinkhorn_vectors_sparse_internal", lambda a: a[0].shape[0])
+
+
 def norm_out(r):
     if sp.issparse(r):
         return {"shape": list(r.shape), "rows": np.asarray(r.todense(), dtype=np.float64).tolist()}
@@ -143,15 +163,31 @@ class Runner:
 
 
 def run(c):
+    import time
+    t0 = time.time()
     r = Runner(c)
     r.fit()
+    t_fit = time.time() - t0
     outs = []
     for op in c["ops"]:
         try:
-            outs.append(norm_out(r.transform(op["idx"], op.get("block"), op.get("chunk"))))
+            del CALLS[:]
+            o = norm_out(r.transform(op["idx"], op.get("block"), op.get("chunk")))
+            if r.lot_dim is not None:
+                o["calls"] = list(CALLS)
+                o["b"] = max(1, lot.str_to_bytes(r.m.memory_size) // (r.lot_dim * 8))
+                o["c"] = int(getattr(r.m, "chunk_size", getattr(r.m, "sinkhorn_chunk_size", 0)))
+            outs.append(o)
         except Exception as e:
             outs.append({"err": type(e).__name__, "msg": str(e)[:300], "tb": traceback.format_exc()[-600:]})
-    return {"ok": outs}
+    extra = {}
+    if r.est == "LZ":
+        extra = {"hashed": r.m.max_columns is not None,
+                 "coldict": [[[ord(ch) for ch in k], int(v)] for k, v in r.m.column_label_dictionary_.items()]
+                 if r.m.max_columns is None else []}
+    if r.est == "BPE":
+        extra = {"code_list": [[int(a), int(b)] for a, b in r.m.code_list_], "mcc": int(r.m.max_char_code_)}
+    return {"ok": outs, "extra": extra, "t": [round(t_fit, 2), round(time.time() - t0, 2)]}
 
 
 cases = json.load(open(sys.argv[1]))
